@@ -172,7 +172,11 @@ def gen_instance(rng, profile="mixed", nj=None, nm=None):
     st = []
     for k in range(nm):
         mat = [[(0 if a == b else rng.randint(0, 4)) for b in range(ntools)] for a in range(ntools)]
-        e = {"machine": "m-%d" % k, "specification": matrix_text(tools, mat)}
+        order = list(range(ntools))
+        if rng.random() < 0.4:
+            rng.shuffle(order)      # header (and rows) not starting with tl-0: the default mounted tool is still tl-0
+        e = {"machine": "m-%d" % k,
+             "specification": matrix_text([tools[a] for a in order], [[mat[a][b] for b in order] for a in order])}
         if profile == "stoch" and rng.random() < 0.5:
             e["time_behavior"] = {"type": "uni", "offset": rng.randint(0, 2)}
         st.append(e)
